@@ -189,10 +189,15 @@ class SpatialNetwork(Network):
                              directed=graph.is_directed(),
                              silence_level=silence_level)
 
-        #  Extract node weights
+        #  Extract node weights (the GML format strips the underscores from
+        #  attribute names)
         if "node_weight_nsi" in graph.vs.attribute_names():
             node_weights = \
                 np.array(graph.vs.get_attribute_values("node_weight_nsi"))
+            net.node_weights = node_weights
+        elif "nodeweightnsi" in graph.vs.attribute_names():
+            node_weights = \
+                np.array(graph.vs.get_attribute_values("nodeweightnsi"))
             net.node_weights = node_weights
 
         #  Overwrite igraph Graph object in Network instance to restore link
